@@ -147,6 +147,7 @@ func runC17(p *Prog, r *Report, tier string) {
 	}
 
 	checkInfoElementImmutable(p, r, "R-OWNER.info-element")
+	checkSpecifierFreshness(p, r, "R-SIBLING.specifier-fresh")
 	// strict mode: "the data that follows is rejected" needs the rejected template to invalidate an older one (C04's rule)
 	if dts, first, dels, adds := templateDecoderAnchors(p); dts != nil {
 		checkInvalidate(p, r, dts, first, dels, adds)
